@@ -25,6 +25,7 @@ structure MathFns (α : Type) where
   exp : α → α
   log : α → α
   pow : α → α → α
+  mod : α → α → α
   sqrt : α → α
   sin : α → α
   cos : α → α
